@@ -1042,7 +1042,10 @@ func (ss *SpecSet) parseFile(path, pkg string) error {
 					// ghostset <ghostvar> = <expr> onstore <var> [in loop <n>]
 					tail := strings.Fields(rest[k3+9:])
 					gs := GhostSet{Var: f[0], Src: rest, Line: where}
-					if len(tail) == 1 {
+					if len(tail) == 2 && tail[0] == "field" {
+						// ghostset <ghostvar> = <expr> onstore field <Type>.<field>
+						gs.OnStore = "@field:" + tail[1]
+					} else if len(tail) == 1 {
 						gs.OnStore = tail[0]
 					} else if len(tail) == 4 && tail[1] == "in" && tail[2] == "loop" {
 						gs.OnStore = tail[0]
